@@ -23,6 +23,10 @@ URLS = [
     ("seg-clear", "/dash/vod/bbb/bbb_v7/3.m4v", False),
     ("seg-enc", "/dash/vod/bbb/bbb_v7_enc/2.m4v?drm=all", False),
     ("seg-audio", "/dash/vod/bbb/bbb_a1/10.m4a", False),
+    # range-capable URLs whose body is produced by further rewriting steps
+    ("seg-corrupt", "/dash/vod/bbb/bbb_v7/3.m4v?vcorrupt=3&frames=2", False),
+    ("seg-events", "/dash/vod/bbb/bbb_v6/2.m4v?events=ping,scte35&ping__interval=50&scte35__interval=130", False),
+    ("seg-live-time", "/dash/live/tears/tears_v1/time/720000.m4v?start=2024-05-05T09:00:00Z&timeline=1", False),
     ("od-video", "/dash/odvod/bbb/bbb_v7.m4v", True),
     ("od-text", "/dash/odvod/bbb/bbb_t1.mp4", True),
 ]
